@@ -297,6 +297,7 @@ def _isolate(mod, idx, shard, timeout):
 
     p = ctx.Process(target=target)
     p.start()
+    child.close()  # (the parent's copy: without this a dying child gives no EOF and the poll waits out the full timeout)
     out = None
     if parent.poll(timeout):
         try:
